@@ -12,17 +12,17 @@ import (
 // 840 for differences <= 8).
 
 type clipLineEv struct {
-	K     string       `json:"k"`
-	Fn    string       `json:"fn"`
-	Box   [4]int       `json:"box"`
-	Paths [][][2]int   `json:"paths"`
-	Open  int          `json:"open"`
-	Out   [][][2]int   `json:"out"`
-	Shape string       `json:"shape"`
-	Mod   int          `json:"mod"`
-	Re    int          `json:"re"`
-	NT    int          `json:"nt"`
-	S     int          `json:"s"`
+	K     string     `json:"k"`
+	Fn    string     `json:"fn"`
+	Box   [4]int     `json:"box"`
+	Paths [][][2]int `json:"paths"`
+	Open  int        `json:"open"`
+	Out   [][][2]int `json:"out"`
+	Shape string     `json:"shape"`
+	Mod   int        `json:"mod"`
+	Re    int        `json:"re"`
+	NT    int        `json:"nt"`
+	S     int        `json:"s"`
 }
 
 func toLS(path [][2]int, s float64) orb.LineString {
